@@ -567,6 +567,13 @@ func (e *Enc) call(fr *Frame, st *State, c *ssa.Call) *State {
 	}
 	if name == "fmt.Sprintf" && len(cc.Args) > 0 {
 		if k, ok := cc.Args[0].(*ssa.Const); ok && k.Value != nil {
+			// a format made of literal text and %s verbs over string arguments is a concatenation
+			if t, ok := fr.vals[c]; ok {
+				if cat := e.sprintfConcat(fr, constant.StringVal(k.Value), c); cat != "" {
+					e.assume("(= " + t + " " + cat + ")")
+					e.usedTrusted["fmt.Sprintf with only %s verbs over strings is concatenation"] = true
+				}
+			}
 			if n := sprintfLiteralLen(constant.StringVal(k.Value)); n > 0 {
 				if t, ok := fr.vals[c]; ok {
 					e.assume(fmt.Sprintf("(>= (strlen %s) %d)", t, n))
@@ -576,6 +583,112 @@ func (e *Enc) call(fr *Frame, st *State, c *ssa.Call) *State {
 		}
 	}
 	return st
+}
+
+// sprintfConcat: for a format consisting of literal text and plain %s verbs whose arguments are strings, the
+// term that concatenates the pieces; "" otherwise.
+func (e *Enc) sprintfConcat(fr *Frame, format string, c *ssa.Call) string {
+	args := varargValues(c)
+	var pieces []string
+	lit := ""
+	ai := 0
+	flush := func() {
+		if lit != "" {
+			pieces = append(pieces, e.strConst(lit))
+			lit = ""
+		}
+	}
+	for i := 0; i < len(format); i++ {
+		if format[i] != '%' {
+			lit += string(format[i])
+			continue
+		}
+		if i+1 >= len(format) {
+			return ""
+		}
+		i++
+		switch format[i] {
+		case '%':
+			lit += "%"
+		case 's':
+			if args == nil || ai >= len(args) {
+				return ""
+			}
+			a := args[ai]
+			ai++
+			b, ok := a.Type().Underlying().(*types.Basic)
+			if !ok || b.Info()&types.IsString == 0 {
+				return ""
+			}
+			flush()
+			pieces = append(pieces, e.val(fr, a))
+		default:
+			return ""
+		}
+	}
+	flush()
+	if len(pieces) == 0 || args == nil || ai != len(args) {
+		return ""
+	}
+	e.d.decl("strcat", "(Str Str) Str")
+	t := pieces[len(pieces)-1]
+	for i := len(pieces) - 2; i >= 0; i-- {
+		t = "(strcat " + pieces[i] + " " + t + ")"
+	}
+	return t
+}
+
+// varargValues: the values stored into the variadic argument slice of a call (fmt.Sprintf(f, a, b)), before
+// their conversion to interface; nil if the slice is not a literal built for this call.
+func varargValues(c *ssa.Call) []ssa.Value {
+	cc := c.Common()
+	if len(cc.Args) == 0 {
+		return nil
+	}
+	last := cc.Args[len(cc.Args)-1]
+	if k, ok := last.(*ssa.Const); ok && k.IsNil() {
+		return []ssa.Value{}
+	}
+	sl, ok := last.(*ssa.Slice)
+	if !ok {
+		return nil
+	}
+	al, ok := sl.X.(*ssa.Alloc)
+	if !ok || al.Comment != "varargs" {
+		return nil
+	}
+	arr, ok := al.Type().Underlying().(*types.Pointer).Elem().Underlying().(*types.Array)
+	if !ok {
+		return nil
+	}
+	out := make([]ssa.Value, arr.Len())
+	for _, r := range *al.Referrers() {
+		ia, ok := r.(*ssa.IndexAddr)
+		if !ok {
+			continue
+		}
+		k, ok := ia.Index.(*ssa.Const)
+		if !ok {
+			return nil
+		}
+		for _, rr := range *ia.Referrers() {
+			if st, ok := rr.(*ssa.Store); ok && st.Addr == ia {
+				v := st.Val
+				if mi, ok := v.(*ssa.MakeInterface); ok {
+					v = mi.X
+				}
+				if int(k.Int64()) < len(out) {
+					out[k.Int64()] = v
+				}
+			}
+		}
+	}
+	for _, v := range out {
+		if v == nil {
+			return nil
+		}
+	}
+	return out
 }
 
 // sprintfLiteralLen: bytes of the format that are not part of a verb.
